@@ -26,6 +26,9 @@ class Unit(t.NamedTuple):
     prop_pred: t.Optional[t.Callable[[t.Any, t.Any], t.Optional[str]]] = None
     nontrivial: t.Optional[t.Callable[[t.Any, str], bool]] = None  # (arg, impl_out_text) -> counts as non-trivial
     bucket: t.Optional[t.Callable[[str], str]] = None  # canonicalise outputs before diffing
+    # False: the predicate is meaningful only on model/implementation DISAGREEMENTS (e.g. under the symbolic crypto a bit flip inside a
+    # serialised term is a valid image of another plaintext: integrity is not a property of that world), so it is not swept
+    sweep: bool = True
 
 
 class Ctx:
@@ -106,7 +109,7 @@ def run_units(ctx: Ctx, units: t.Sequence[Unit]) -> None:
             pos += 1
             i = core.run_impl(u.impl, c)
             ctx.evaluations += 1
-            if u.prop_pred is not None:
+            if u.prop_pred is not None and u.sweep:
                 ctx.impl_outputs.setdefault(u.name, (u, []))[1].append((c, i))
             if i.startswith("e"):
                 st["impl_errors"][i[1:]] = st["impl_errors"].get(i[1:], 0) + 1
@@ -319,6 +322,12 @@ def run_check(prop: str, tier: str, seed: int) -> int:
                 proved = False
                 ctx.extra["broken_obligations"] = [{"file": f"Properties/{ctx.prop}.vo", "line": 0, "stmt": "coqchk",
                                                     "msg": "coqchk does not accept the compiled cone, or it rests on axioms: " + str(ck.get("axioms")) + " " + ck["tail"][-200:]}]
+        if proved and os.environ.get("VERIF_FORCE_SWEEP") == "1" and not ctx.violations:
+            # self-test of the predicates: on a tree where everything is proved and model = implementation, every property predicate
+            # must hold on every output (otherwise the sweep below would raise a false alarm the day an obligation breaks)
+            bad = pred_sweep(ctx)
+            if bad:
+                ctx.violation("failing-input", "predicate-self-test", bad, key=None)
         if not proved:
             found = None
             if hasattr(mod, "search"):
